@@ -25,7 +25,7 @@ class Unit:
         for fd in d["functions"]:
             fn = Fn(self, fd)
             self.fns[fn.fid] = fn
-        self.rec_by_type = {r["t"]: r for r in self.records}
+        self.rec_by_type = RecIndex(self)
 
     def loc(self, l):
         if not l:
@@ -36,6 +36,29 @@ class Unit:
         if t is None or t < 0:
             return "?"
         return self.types[t]
+
+
+class RecIndex:
+    """records by type id, tolerant of cv-qualification of the queried type"""
+
+    def __init__(self, unit):
+        self.unit = unit
+        self.by_id = {r["t"]: r for r in unit.records}
+        self.by_str = {unit.types[r["t"]]: r for r in unit.records}
+
+    def get(self, t, default=None):
+        if t is None:
+            return default
+        r = self.by_id.get(t)
+        if r is not None:
+            return r
+        if isinstance(t, int) and 0 <= t < len(self.unit.types):
+            ts = self.unit.types[t]
+            for pre in ("const volatile ", "const ", "volatile "):
+                if ts.startswith(pre):
+                    ts = ts[len(pre):]
+            return self.by_str.get(ts, default)
+        return default
 
 
 class Fn:
@@ -131,7 +154,7 @@ class DB:
 
 CHILD_KEYS = ("obj", "ce", "a", "b", "e", "lhs", "rhs", "c", "then", "else", "init", "inc", "body",
               "range", "var", "vars", "caps", "i", "be", "handlers", "cvar", "v", "bindings",
-              "inits")
+              "inits", "hv")
 
 
 def children(node):
